@@ -180,6 +180,11 @@ NATIVE_EXC = (KeyError, IndexError, AttributeError, TypeError, ValueError, StopI
 
 class Interp:
     def __init__(self, prog: Program, *, max_depth: int = 12, max_steps: int = 200000) -> None:
+        import sys
+
+        # one evaluated call nests a few dozen interpreter frames: the evaluator's own depth bound must be the one that trips
+        if sys.getrecursionlimit() < 400 + 120 * max_depth:
+            sys.setrecursionlimit(400 + 120 * max_depth)
         self.prog = prog
         self.max_depth = max_depth
         self.max_steps = max_steps
@@ -1179,6 +1184,8 @@ class Interp:
             return self.ext_handlers[name](self, *args, **kwargs)
         short = name.split(".")[-1]
         if name.startswith("builtins."):
+            if name == "builtins.dict.fromkeys":
+                return dict.fromkeys(list(self._iterate(args[0])), *args[1:])
             if short == "isinstance":
                 return self._isinstance(args[0], args[1])
             if short == "any":
